@@ -451,6 +451,73 @@ fn violation_task(h: &mut Harness) -> Result<Value, String> {
         cli.discard();
         res.push(json!({"name": format!("{} commands in one read", k), "outcome": if ok { "in-order" } else { "wrong" }, "replies": got.len(), "error": err}));
     }
+    // reply bursts larger than the socket buffers: the server can hand the kernel only part of its reply buffer per
+    // write and has to continue where it stopped; the client drains between loop iterations only
+    // (a seeded slip in the bookkeeping of partial writes went unnoticed while every reply fitted in one write)
+    for (value_len, gets) in [(64usize << 10, 8usize), (256 << 10, 24), (1 << 20, 24), (4 << 20, 3)] {
+        h.ensure()?;
+        let name = format!("{} GETs of a {} KiB value in one write", gets, value_len >> 10);
+        let value: Vec<u8> = (0..value_len).map(|i| b'a' + (i % 23) as u8).collect();
+        let mut cli = h.srv.as_ref().unwrap().connect().map_err(|e| format!("connect: {:?}", e))?;
+        {
+            let srv = h.srv.as_ref().unwrap();
+            let set = resp::cmd(&[b"SET".to_vec(), b"burst".to_vec(), value.clone()]);
+            srv.send_all(&mut cli, &set).map_err(|e| format!("SET burst: {:?}", e))?;
+            let r = srv.await_reply(&mut cli, 40 + set.len() / 2048).map_err(|e| format!("SET burst: {:?}", e))?;
+            if r != R::ok() {
+                return Err(format!("SET burst -> {}", resp::show(&r)));
+            }
+        }
+        let mut bytes = resp::cmd(&["PING"]);
+        for _ in 0..gets {
+            bytes.extend(resp::cmd(&["GET", "burst"]));
+        }
+        bytes.extend(resp::cmd(&["ECHO", "end-of-burst"]));
+        cli.send(&bytes);
+        let want = gets + 2;
+        let mut got: Vec<R> = Vec::new();
+        let mut err: Option<String> = None;
+        let mut idle = 0;
+        // every iteration may move only one socket buffer's worth: be patient, but finite
+        for _ in 0..(200 + (value_len * gets) / 8192) {
+            match h.srv.as_ref().unwrap().step() {
+                StepResult::Arrived => {}
+                StepResult::Died => {
+                    err = Some("server-exited".into());
+                    break;
+                }
+                StepResult::Parked => {
+                    err = Some("parked".into());
+                    break;
+                }
+            }
+            cli.poll();
+            let before = got.len() + cli.buf.len();
+            loop {
+                match cli.take_frame() {
+                    Ok(Some(f)) => got.push(f),
+                    Ok(None) => break,
+                    Err(e) => {
+                        err = Some(format!("garbage: {}", e));
+                        break;
+                    }
+                }
+            }
+            if err.is_some() || got.len() >= want || cli.closed {
+                break;
+            }
+            idle = if got.len() + cli.buf.len() == before { idle + 1 } else { 0 };
+            if idle > 50 {
+                break;
+            }
+        }
+        let ok = err.is_none() && got.len() == want && got[0] == R::Simple(b"PONG".to_vec()) && got[1..=gets].iter().all(|r| *r == R::Bulk(value.clone())) && got[want - 1] == R::Bulk(b"end-of-burst".to_vec());
+        let usable = if cli.is_open() { h.srv.as_ref().unwrap().call(&mut cli, &["PING"]).map(|r| r == R::Simple(b"PONG".to_vec())).unwrap_or(false) } else { false };
+        cli.discard();
+        let _ = h.aux_call(&["DEL", "burst"]);
+        let outcome = if ok && usable { "in-order" } else if !ok { "wrong" } else { "connection-unusable-afterwards" };
+        res.push(json!({"name": name, "outcome": outcome, "replies": got.len(), "expected_replies": want, "error": err, "connection_closed": !usable}));
+    }
     Ok(json!({"cases": res}))
 }
 
